@@ -22,7 +22,10 @@ _add(
           'some edits run under suspend_tracking; the config is swapped for its '
           'copy / deepcopy / pickle between edits (a value that cannot be '
           'deep-copied makes that a refusal that must change nothing); an '
-          'equal-signature decoy callable may be configured first; '
+          'equal-signature decoy callable may be configured first; slice '
+          'assignments whose right-hand side raises while it is iterated (must '
+          'fail without writing, or succeed completely); defaults that are '
+          'numbers of three types or an opaque object; '
           'a run is non-trivial if it applied >=3 state-changing edits or >=1 '
           'rejected op; distinct = distinct case hash'),
     real_vs_stub=REAL + 'stub: the configured callables (generated per run), '
@@ -97,14 +100,15 @@ _add(
           'auto_unconfig build before the failure; a callable whose own str() '
           'fails), each followed by a fault-free build; nested-build attempts '
           '(nine argument kinds, auto_unconfig preludes, later callables); '
-          'residue of refused update_callable; callees that modify their '
-          'arguments; edits between builds; '
+          'residue of refused update_callable, or a successful one that leaves '
+          'a tag behind; callees that modify their arguments; edits between '
+          'builds; TaggedValue placeholders inside containers; '
           'non-trivial = DAG with >= 2 Buildables; distinct = distinct DAG hash'),
     real_vs_stub=_BUILD_RVS,
     assumptions=['the failing callable is identified by its unique uid '
                  'argument (twins share a uid; any twin is accepted as path '
                  'target)',
-                 'exception shapes are the 25 listed in fsim/stubmod.py'],
+                 'exception shapes are the 26 listed in fsim/stubmod.py'],
     required_probes=['path_checked', 'fault_free_builds'],
     level_text=('fault enumeration: for every generated DAG every Config node '
                 'fails once (crash point enumeration is exhaustive per DAG; '
@@ -165,7 +169,7 @@ _add(
           'failing / nested-building callable, deepcopy, ==, JSON round trip, '
           'history read, short-lived configs of a callable nothing else '
           'configures, sequences of growing length, late registration of a '
-          'node traverser) on its own configs, some of which are per-thread deep '
+          'node traverser, stand-alone TaggedValues, set_tagged) on its own configs, some of which are per-thread deep '
           'copies of templates made before the threads start; '
           'non-trivial = >= 1 context switch; '
           'distinct = distinct (programs, interleaving digest)'),
@@ -232,7 +236,9 @@ _add(
                 'build by replaying each program under suspend_tracking'),
     design_ref='DESIGN.md 4 (C16), 2.5',
     level_note=('trusted: snapshots of __arguments__/__argument_tags__ as the '
-                'ground truth of what was stored; canon; scheduler'),
+                'ground truth of what was stored; canon; scheduler; a refused '
+                'single-key operation must log nothing; the deletion marker is '
+                'checked by identity, also on copies'),
     technique=('deterministic simulation: seeded edit histories on 1-3 '
                'scheduled threads, snapshot-derived history oracle, replay'),
 )
@@ -250,7 +256,10 @@ _add(
           'fail with it in its cause chain, later calls unaffected), bounded '
           're-entrant calls from a factory, callables that attempt and swallow '
           'a nested build while the Partial is built, a history of dead decoy '
-          'builds; one canon over all results '
+          'builds; in 30 % of the cases the root Partial configures a callable '
+          'with a GENERATED signature (all parameter and callable kinds of C01); '
+          'the configuration may be a copy / deepcopy / pickle of itself before '
+          'it is built; one canon over all results '
           'of the history vs the reference; non-trivial = >= 2 successful '
           'calls; distinct = distinct case hash'),
     real_vs_stub=REAL + 'stub: configured callables; the PartialModel reference',
@@ -284,7 +293,9 @@ _add(
           'configs), tag collections passed as list / tuple / frozenset / one '
           're-used caller-owned set, leaves that cannot be deep-copied (a '
           'refusal is loud and accepted, a copy that is returned is checked), '
-          'suspend blocks, build; after every op the joint canon of all live roots is '
+          'fdl.assign with a refused last keyword, values explicitly equal to '
+          'the default, the NO_VALUE sentinel (by identity), TaggedValues made '
+          'by TaggedValue(...) / Tag.new / with_tags, suspend blocks, build; after every op the joint canon of all live roots is '
           'compared with the model heap and each (original, copy) pair is '
           'checked for shared argument dicts / tag sets / history lists; '
           'non-trivial = >= 3 state-changing ops; distinct = distinct case hash'),
@@ -314,7 +325,8 @@ _add(
           'select(tag).replace (also with mutable values and TaggedValues as '
           'the replacement: per-site copies), kept selection objects, '
           'update_callable (incl. a **kwargs target) as a step and inside diffs, '
-          'a string tag annotation whose global appears later, '
+          'a string tag annotation whose global appears later, tag annotations '
+          'on positional-only / *args / **kwargs parameters, '
           'list_tags +- superclasses, transports (copy, '
           'deepcopy, pickle, cast, JSON round trip, build_diff+apply_diff of '
           'tag edits), build; joint canon incl. every tag set after every op; '
@@ -366,7 +378,9 @@ _add(
           'import-race arm: two loads name a module whose first import is slow '
           'and rebinds the name at its end (the import lock is modelled by a '
           'schedulable lock); migration arm: a symbol migration is registered '
-          'between two dumps of one value; non-trivial = >= 1 '
+          'between two dumps of one value; refused register_constant calls as '
+          'process history; configurations whose callable was swapped before '
+          'the dump (stale tags); non-trivial = >= 1 '
           'document produced; distinct = distinct case hash'),
     real_vs_stub=REAL + ('stub: configured callables, the recording '
                          'PyrefPolicy, the import seam (serialization.importlib '
@@ -414,7 +428,10 @@ _add(
           'fail again; a value that is returned reflects every other directive '
           'in order); a second, interleaved flag object; the module attribute a '
           'fiddler directive names is rebound between directives; a leaf whose '
-          '__repr__ raises while the config is printed; non-trivial = >= 2 directives applied; '
+          '__repr__ raises while the config is printed; parse() batches refused '
+          'as a whole (non-string entry) and handed over again; call '
+          'expressions with several positional / keyword literals; read-only '
+          'tag queries before printing; non-trivial = >= 2 directives applied; '
           'distinct = distinct case hash'),
     real_vs_stub=REAL + ('real absl MultiFlag machinery; stub: configured '
                          'callables, base-config function and fiddlers in '
